@@ -109,6 +109,8 @@ class Prop(object):
         for root, d in self.bound(tier)['depth'].items():
             for op in H.OPS:
                 u.append(('bfs', {'root': root, 'first': op, 'depth': d}))
+        for root, hist in H.DEEP_HISTORIES:
+            u.append(('bfs', {'root': root, 'hist': hist}))
         for ks in KEYSETS:
             u.append(('forms', {'keyset': ks}))
         # the same keys with their creation time held as a zone-aware datetime of another offset (same instant): the twin is the same key
